@@ -160,7 +160,7 @@ impl Hist {
         }
         self.recent.push_back(format!("{:?}", op));
         let pre = self.m.clone();
-        let needs_shape = matches!(op, Op::ViewMut(..)) || self.f.shape || self.f.muta;
+        let needs_shape = true;
         let pre_shape = if needs_shape {
             match guarded(|| self.w.shape(self.slot)) {
                 Ok(s) => s,
@@ -296,6 +296,22 @@ impl Hist {
                 self.viol(ev, &format!("write-changed-len/{}", op_name(op)), format!("{:?} changed len()", op));
                 return Flow::Stop;
             }
+        }
+        if self.f.panic && injected {
+            // after a panic in a user callback: size-consistent, well-formed, storage partition intact
+            let keep = self.canonical;
+            self.canonical = false;
+            run!(true, "len-after-injected-panic", self.check_len().into_iter().map(|(s, m)| (format!("after-injected-panic/{}", s), m)).collect::<Vec<_>>());
+            run!(true, "shape-after-injected-panic", self.check_shape(ev, op, &pre, &pre_shape, &post_shape).into_iter().map(|(s, m)| (format!("after-injected-panic/{}", s), m)).collect::<Vec<_>>());
+            run!(true, "arena-after-injected-panic", {
+                let a = self.w.arena(self.slot);
+                match arena_partition(&a).1 {
+                    Some(p) => vec![(format!("after-injected-panic/arena/{}/after={}", p.0, op_name(op)), format!("after a panic in the callback of {:?}: {}", op, p.1))],
+                    None => vec![],
+                }
+            });
+            self.canonical = keep;
+            ev.count("injected_panics/consistency_checks", 1);
         }
         run!(self.f.shape, "shape", self.check_shape(ev, op, &pre, &pre_shape, &post_shape));
         run!(self.f.arena, "arena", self.check_arena(ev, op, &post_shape));
